@@ -210,7 +210,9 @@ def mm_preseal():
                          C("frame", "pool_phase_frame(state, res) && res.fee_pool == state.fee_pool", "C15", "C17", "C05"),
                          C("inv", "state_inv(res)", "C20"),
                          C("builtins", "spec_builtin_pools(res) && builtins_live(res) && pools_ok(res.pools@)", "C16"),
-                         C("ids", "ids_new(state.coins@.coins, res.coins@.coins)", "C20", "C02", note="settlement introduces no coin id other than ids of transaction outputs")])
+                         C("ids", "ids_new(state.coins@.coins, res.coins@.coins)", "C20", "C02", note="settlement introduces no coin id other than ids of transaction outputs"),
+                         C("markers", "!deposit_legacy(state.network, state.height) ==> markers_kept(state.coins@.coins, res.coins@.coins)", "C19",
+                           note="settlement never touches a faucet's dedup marker (not derived for the pre-978392 deposit rule, whose coin writes are characterised by their frame only)")])
 def st_tip909():
     return dict(requires=[C("pools", "old(self).pools@.contains_key(pk_mel_sym()) && old(self).pools@.contains_key(pk_erg_sym()) && pool_live(old(self).pools@[pk_mel_sym()]) && pool_live(old(self).pools@[pk_erg_sym()])"),
                           C("height", "old(self).height.0 < 950000 + 128 * 1_000_000", note="C09 envelope: `(1 << 20) >> divider` overflows the shift once divider reaches 128, i.e. from height 128 950 000 on (about 120 years of 30-second blocks); not reproduced on the real code (sealing at such a height is impractical to run)"),
@@ -229,6 +231,8 @@ def st_seal_full():
                          C("rel", "seal_rel(self, action, res.0) && res.1 == action", "C06", "C05", "C17", "C01", "C15", "C16"),
                          C("action_tips", "sealed_ok(SealedState(res.0, action))", "C08", "C05"),
                          C("noaction", "action is None ==> res.0.fee_multiplier == self.fee_multiplier && res.0.tips == self.tips", "C17", "C05"),
+                         C("markers", "!deposit_legacy(self.network, self.height) ==> markers_kept(self.coins@.coins, res.0.coins@.coins) && (markers_ok(self.coins@.coins) ==> markers_ok(res.0.coins@.coins))", "C19",
+                           note="sealing never removes or overwrites a faucet's dedup marker: settlement writes under transaction-output ids, the reward coin under the reward pseudo-id (A-HASH domain separation)"),
                          C("frame", "res.0.network == self.network && res.0.height == self.height && res.0.history == self.history && res.0.transactions == self.transactions && res.0.stakes == self.stakes && res.0.dosc_speed == self.dosc_speed", "C07", "C06"),
                          C("inv", "res.0.coins.wf() && spec_builtin_pools(res.0)", "C16", "C20"),
                          C("sinv", "state_inv(res.0) && pools_ok(res.0.pools@) && builtins_live(res.0)", "C16", "C20", note="sealing preserves the state invariants")])
@@ -244,13 +248,16 @@ def st_apply_tx_batch():
     return dict(requires=[C("pre", "batch_pre(*old(self), txx@)")],
                 ensures=[C("noop", "res is Err ==> *final(self) == *old(self)", "C02"),
                          C("errkind", "res is Err ==> !(res->Err_0 is WrongHeader)", "C06", char=True),
-                         C("ok", "res is Ok ==> batch_result(*old(self), txx@, *final(self))", "C02", "C06", "C01")])
+                         C("ok", "res is Ok ==> batch_result(*old(self), txx@, *final(self))", "C02", "C06", "C01"),
+                         C("markers", "res is Ok && markers_ok(old(self).coins@.coins) ==> markers_kept(old(self).coins@.coins, final(self).coins@.coins) && markers_ok(final(self).coins@.coins)", "C19")])
 
 def ts_iter():
     return dict(ensures=[C("enum", "exists|ks: Seq<TxHash>| is_enum(self@, ks) && res@.len() == ks.len() && (forall|i: int| 0 <= i < ks.len() ==> *(#[trigger] res@[i]) == self@[ks[i]])", "C07")])
 def ap_batch_impl():
     return dict(requires=[C("pre", "batch_pre(*this, txx@)")],
                 ensures=[C("ok", "res is Ok ==> batch_result(*this, txx@, res->Ok_0)", "C02", "C06", "C03", "C01"),
+                         C("markers", "res is Ok && markers_ok(this.coins@.coins) ==> markers_kept(this.coins@.coins, res->Ok_0.coins@.coins) && markers_ok(res->Ok_0.coins@.coins)", "C19",
+                           note="no transaction can spend a faucet's dedup marker (nothing hashes to its all-zero covenant hash), so an accepted batch keeps every marker"),
                          C("errkind", "res is Err ==> !(res->Err_0 is WrongHeader)", "C06", char=True)])
 
 def cm_new_abs():
